@@ -136,3 +136,9 @@ def natives(rp, builder):   # noqa: F811
         n.update(_args_natives(lambda name: holder["ns"][name]))
         n["__bind_ns__"] = holder
     return n
+
+
+def crash_replay(rp):
+    """C08: fault-injection replay of a failed crash-invariant obligation on the real code (contracts/crash_replay.py)."""
+    from contracts.crash_replay import crash_replay as f
+    return f(rp)
